@@ -277,9 +277,10 @@ theorem childOutcome_cannotRun_iff (d : Bool) (f w : Res) :
 
 /-- The value of `exec(argv, -1)` under arbitrary call results: the three results it consumes are those of the calls
 number 0, 1 and 2. -/
-theorem execP_none_value (orc : Nat → Call → Res) :
-    (runOracle orc (execP none) 0 []).1 =
-      execValue (match orc 0 (.openPath (ofString "/dev/null")) with | .ok _ => true | _ => false) (orc 1 .fork) (orc 2 .waitpid) := by
+theorem execP_none_value (argv : List Bytes) (orc : Nat → Call → Res) :
+    (runOracle orc (execP argv none) 0 []).1 =
+      execValue (match orc 0 (.openPath (ofString "/dev/null")) with | .ok _ => true | _ => false)
+        (orc 1 (.fork argv (Own.okHandle (orc 0 (.openPath (ofString "/dev/null")))))) (orc 2 .waitpid) := by
   rw [runOracle_eq, Own.execP_run]
   dsimp only
   cases orc 0 (.openPath (ofString "/dev/null")) <;> rfl
@@ -295,38 +296,41 @@ def waitBad (r : Res) : Prop := ∀ s, r = .ok s → waitKind s ≠ .exited 0
 
 /-- Somewhere in the trace a `fork` failed or a `waitpid` reported anything but "exited 0". -/
 def BadChild (tr : Trace) : Prop :=
-  (∃ r, (Call.fork, r) ∈ tr ∧ forkFailed r) ∨ (∃ r, (Call.waitpid, r) ∈ tr ∧ waitBad r)
+  (∃ c r, (c, r) ∈ tr ∧ c.isFork = true ∧ forkFailed r) ∨ (∃ r, (Call.waitpid, r) ∈ tr ∧ waitBad r)
 
 /-- Calls other than `fork` and `waitpid`. -/
 def NoProc : Call → Prop
-  | .fork | .waitpid => False
+  | .fork .. | .waitpid => False
   | _ => True
 
 theorem badChild_nil : ¬ BadChild [] := by
-  rintro (⟨r, h, _⟩ | ⟨r, h, _⟩) <;> cases h
+  rintro (⟨c, r, h, _⟩ | ⟨r, h, _⟩) <;> cases h
 
 theorem badChild_snoc (tr : Trace) (c : Call) (r : Res) :
-    BadChild (tr ++ [(c, r)]) ↔ BadChild tr ∨ (c = .fork ∧ forkFailed r) ∨ (c = .waitpid ∧ waitBad r) := by
+    BadChild (tr ++ [(c, r)]) ↔ BadChild tr ∨ (c.isFork = true ∧ forkFailed r) ∨ (c = .waitpid ∧ waitBad r) := by
   unfold BadChild
   simp only [List.mem_append, List.mem_singleton, Prod.mk.injEq]
   constructor
-  · rintro (⟨r', (h | ⟨h1, h2⟩), hf⟩ | ⟨r', (h | ⟨h1, h2⟩), hf⟩)
-    · exact .inl (.inl ⟨r', h, hf⟩)
-    · subst h1 h2; exact .inr (.inl ⟨rfl, hf⟩)
+  · rintro (⟨c', r', (h | ⟨h1, h2⟩), hc, hf⟩ | ⟨r', (h | ⟨h1, h2⟩), hf⟩)
+    · exact .inl (.inl ⟨c', r', h, hc, hf⟩)
+    · subst h1 h2; exact .inr (.inl ⟨hc, hf⟩)
     · exact .inl (.inr ⟨r', h, hf⟩)
     · subst h1 h2; exact .inr (.inr ⟨rfl, hf⟩)
-  · rintro ((⟨r', h, hf⟩ | ⟨r', h, hf⟩) | ⟨rfl, hf⟩ | ⟨rfl, hf⟩)
-    · exact .inl ⟨r', .inl h, hf⟩
+  · rintro ((⟨c', r', h, hc, hf⟩ | ⟨r', h, hf⟩) | ⟨hc, hf⟩ | ⟨rfl, hf⟩)
+    · exact .inl ⟨c', r', .inl h, hc, hf⟩
     · exact .inr ⟨r', .inl h, hf⟩
-    · exact .inl ⟨r, .inr ⟨rfl, rfl⟩, hf⟩
+    · exact .inl ⟨c, r, .inr ⟨rfl, rfl⟩, hc, hf⟩
     · exact .inr ⟨r, .inr ⟨rfl, rfl⟩, hf⟩
+
+theorem NoProc.not_isFork {c : Call} (h : NoProc c) : c.isFork = false := by
+  cases c <;> first | rfl | exact h.elim
 
 theorem badChild_snoc_noproc {tr : Trace} {c : Call} (r : Res) (h : NoProc c) : BadChild (tr ++ [(c, r)]) ↔ BadChild tr := by
   rw [badChild_snoc]
   constructor
-  · rintro (h' | ⟨rfl, _⟩ | ⟨rfl, _⟩)
+  · rintro (h' | ⟨hc, _⟩ | ⟨rfl, _⟩)
     · exact h'
-    · exact h.elim
+    · rw [h.not_isFork] at hc; cases hc
     · exact h.elim
   · exact .inl
 
@@ -387,8 +391,8 @@ theorem noproc_messageGetFd (env : PEnv) (ms : MsgSt) (part : Option Msg) (dobod
   repeat' (first | exact noproc_writefd _ | exact noproc_writeAll _ _ _ | exact noproc_messageWriteP _ _ | noproc_step)
 
 /-- `exec()`: if its `fork` fails, its `waitpid` fails or the status is anything but "exited 0", the value is not 0. -/
-theorem wp_execP (fdin : Option Handle) (tr : Trace) :
-    wp AnyRes AnyCall (execP fdin) (fun rc tr' => BadChild tr' → BadChild tr ∨ rc ≠ 0) tr := by
+theorem wp_execP (argv : List Bytes) (fdin : Option Handle) (tr : Trace) :
+    wp AnyRes AnyCall (execP argv fdin) (fun rc tr' => BadChild tr' → BadChild tr ∨ rc ≠ 0) tr := by
   unfold execP
   simp only [bind_eq, pure_eq, call_bind]
   refine wp_bind_mono (P := fun _ tr' => BadChild tr' ↔ BadChild tr) ?_ ?_
@@ -403,7 +407,7 @@ theorem wp_execP (fdin : Option Handle) (tr : Trace) :
       -- the tail: close /dev/null if it was opened here
       have tail : ∀ (res : Int) (tr2 : Trace), (BadChild tr2 → BadChild tr ∨ res ≠ 0) →
           wp AnyRes AnyCall
-            (match devnull with
+            (match (generalizing := false) devnull with
               | some h => Prog.call (Call.close h) fun _ => Prog.ret res
               | none => Prog.ret res)
             (fun rc tr' => BadChild tr' → BadChild tr ∨ rc ≠ 0) tr2 := by
@@ -418,7 +422,7 @@ theorem wp_execP (fdin : Option Handle) (tr : Trace) :
       | ok v =>
         dsimp only
         refine ⟨trivial, fun w _ => ?_⟩
-        have hfork : BadChild (tr1 ++ [(Call.fork, Res.ok v)]) ↔ BadChild tr := by
+        have hfork : BadChild (tr1 ++ [(Call.fork argv (childStdin fdin devnull), Res.ok v)]) ↔ BadChild tr := by
           rw [badChild_snoc, ← h1]
           constructor
           · rintro (h | ⟨_, hf⟩ | ⟨hc, _⟩)
@@ -458,7 +462,7 @@ theorem wp_execOne_exec (env : PEnv) (mh : Match) (st : ExecSt) (hty : mh.ty = .
     | none => exact fun _ => .inr rfl
     | some fd =>
       dsimp only
-      refine wp_bind_mono (wp_execP fd tr1) ?_
+      refine wp_bind_mono (wp_execP _ fd tr1) ?_
       intro rc tr2 h2
       have fin : ∀ tr3 : Trace, (BadChild tr3 → BadChild tr2) → BadChild tr3 → BadChild tr ∨ (rc != 0) = true := by
         intro tr3 h3 hb
